@@ -207,6 +207,10 @@ func (d *DHCPv4) SerializeTo(b gopacket.SerializeBuffer, opts gopacket.Serialize
 	if err != nil {
 		return err
 	}
+	// chaddr, sname, file and the addresses may be shorter than their fixed-size slots: start from zeros
+	for i := range data {
+		data[i] = 0
+	}
 
 	data[0] = byte(d.Operation)
 	data[1] = byte(d.HardwareType)
